@@ -19,6 +19,18 @@ CLAIMED = {
        "std::fs::canonicalize as a finite table computed by the harness.",
   technique="Lean 4 proof over a hand model (induction, pointwise algebra) + differential correspondence with merge_results/add_results",
   design="6.C01"),
+ "C04": dict(
+  text=("Proof: theorems about the byte machine Lcov.parse (model of parse_lcov/add_branch): branch vector indexed by "
+        "branch number with slot = OR over all records of that (line, branch), independent of record order and block "
+        "numbers; line count = clamped sum of DA counts in any order; byte-level DA record lemma for every digit string, "
+        "LF and CRLF; no branch data with branch parsing off for every byte string; compositionality. Full statement "
+        "parse(render ast)=sem ast is proved per layer as described in Props/C04.lean; the remaining record kinds are "
+        "covered by the spec oracle. Tie: parse_lcov vs Lcov.parse byte-for-byte on rendered ASTs and on a malformed "
+        "stream; spec oracle parse_lcov(render ast)=sem ast on the implementation with shrinking."),
+  note=COMMON_NOTE + "Modelled, not verified: String::from_utf8_lossy (modelled as Lcov.utf8Lossy and tied on generated "
+       "byte strings); debug-build overflow semantics (overflow-checks on). Known finding C04-fnda-before-fn.",
+  technique="Lean 4 proof over a byte-level Mealy-machine model of parse_lcov + differential correspondence + spec oracle on the implementation",
+  design="6.C04"),
 }
 
 PENDING_REASON = "not claimed in this revision: model and check still being built (see DESIGN.md section 10)"
